@@ -34,6 +34,7 @@ func VerifC33Pair() {
 	b := vDial(s, optsB)
 	vSend(b, vSubscribeBytes(1, "t", 1, verB))
 	vSend(b, vSubscribeBytes(2, "w", 1, verB))
+	vSend(b, vSubscribeBytes(5, "$share/g/t", 1, verB)) // b is also a member of a share group on t
 	aLive := true
 	if vBool() { // b holds an unacknowledged message; a retained message exists
 		vSend(a, vPublishBytes("t", 1, 1, 10, true, verA))
@@ -53,8 +54,15 @@ func VerifC33Pair() {
 	vSchedBudget(vParam("PRE", 0), vParam("SCH", 1))
 	acts := vParam("ACTS", 2)
 	used := map[int]bool{}
+	// MENU: bit mask of the activities to choose from (0: all 13)
+	var menu []int
+	for k := 0; k < 13; k++ {
+		if m := vParam("MENU", 0); m == 0 || (m>>uint(k))&1 == 1 {
+			menu = append(menu, k)
+		}
+	}
 	for i := 0; i < acts; i++ {
-		k := vChoose(13)
+		k := menu[vChoose(len(menu))]
 		if used[k] {
 			return // each activity at most once per scenario (symmetry)
 		}
@@ -66,14 +74,14 @@ func VerifC33Pair() {
 			}
 		case 1:
 			vConnFeed(b, []byte{0x40, 2, 0, 1})
-		case 2:
-			vConnFeed(b, vSubscribeBytes(3, "x/#", 1, verB))
+		case 2: // b subscribes: a new filter, or (again) its share-group membership
+			vConnFeed(b, vSubscribeBytes(3, []string{"x/#", "$share/g/t"}[vChoose(2)], 1, verB))
 		case 3:
 			ub := vU16b(4)
 			if verB == 5 {
 				ub = append(ub, 0)
 			}
-			ub = append(ub, vStrb("t")...)
+			ub = append(ub, vStrb([]string{"t", "$share/g/t"}[vChoose(2)])...) // a plain filter, or leaving the share group
 			vConnFeed(b, append([]byte{0xA2, byte(len(ub))}, ub...))
 		case 4:
 			if aLive {
